@@ -6,6 +6,42 @@ from .c02 import find_class
 from .. import model as M
 
 
+_LOOP = {}
+
+
+def internal_calls(ctx, f, s, cls, unlisted):
+    import grpc
+    from google.longrunning import operations_pb2
+    from . import servers, values
+    from .rig import to_python
+    todo = [m for m in unlisted if not m.get("cs") and not m.get("ss") and not m.get("op_service")]
+    if not todo:
+        return
+    if "srv" not in _LOOP:
+        _LOOP["srv"] = servers.GrpcLoop(servers.arities_from_fds(ctx.fds))
+        ctx.on_close(_LOOP["srv"].stop)
+        _LOOP["ch"] = grpc.insecure_channel(_LOOP["srv"].addr)
+        ctx.on_close(_LOOP["ch"].close)
+    srv = _LOOP["srv"]
+    classes = values.classes_of(ctx.pool)
+    client = cls(transport=cls.get_transport_class("grpc")(channel=_LOOP["ch"]))
+    for m in todo[:3]:
+        path = f"/{f['package']}.{s['name']}/{m['name']}"
+        is_op = m["output"] == ".google.longrunning.Operation"
+        reply = (operations_pb2.Operation(name="operations/x", done=False) if is_op else classes(ctx.descriptor(m["output"]))()).SerializeToString()
+        srv.respond = lambda rec: reply
+        srv.take()
+        try:
+            getattr(client, "_" + client_method_name(m["name"]))(request=to_python(ctx, m["input"], classes(ctx.descriptor(m["input"]))()))
+        except Exception as e:
+            ctx.violation("internal-call-raised", f"{cls.__name__}._{client_method_name(m['name'])}: {type(e).__name__}: {str(e)[:200]}")
+            continue
+        calls = [c["method"] for c in srv.take()]
+        ctx.count("internal_calls")
+        if calls[:1] != [path]:
+            ctx.violation("internal-call-path", f"{cls.__name__}._{client_method_name(m['name'])} reached {calls}, expected {path}")
+
+
 def exercise(ctx):
     from .c01 import import_all
     import_all(ctx)
@@ -87,6 +123,9 @@ def exercise(ctx):
                         # every entry point of the RPC is internal (extended-operation RPCs have a second one, <rpc>_unary)
                         if hasattr(c, client_method_name(m["name"]) + "_unary"):
                             ctx.violation("internal-rpc-public", f"{c.__name__} exposes unlisted RPC {m['name']} as {client_method_name(m['name'])}_unary")
+                # internal methods still work: an unlisted RPC is called through its `_name` on the sync client
+                # (LRO ones need what the transport provides for them although no public LRO method is left)
+                internal_calls(ctx, f, s, cls, unlisted)
             ctx.count("services_checked")
         f["services"] = new_svcs
     # kept RPCs behave as specified (C03's observation on the selective library)
